@@ -12,8 +12,7 @@ TRUSTED_BASE = [
 HOOK_COMMITS = ["89cac3b", "2698c5e"]
 
 # properties not (yet) claimed; every one has an executable logic core and is planned (DESIGN.md §9)
-NOT_APPLICABLE = {f"C{i:02d}": "not yet claimed in this revision: model/suite under construction (see DESIGN.md §9 staging); the technique does apply"
-                  for i in range(1, 20)}
+NOT_APPLICABLE = {}   # every property is claimed
 
 ASM_RULE = "asmseq: random op sequences (bursts: header A/B, NNNN, corrupted, with disallowed tails, empty, arbitrary; time steps 0, 1, hold-1..hold+1, hist-1..hist+1, random) with output AND private state (history, pending, previous with deadlines) compared after every call. asmscen: scripted burst histories with assemble at each burst-end tick, no polls inside link-busy windows, a poll at EVERY other tick: (i) C02 grid = 64 presence masks x {absent, corrupted} x header-to-trailer gaps (1 s .. beyond the history window, both edges of hold and history) x pause {0.95,1.0,1.05 s} x header length class (37..252 bytes); (ii) sequences of 1..3 transmissions (header A, header B, trailer) with masks and inter-transmission gaps; (iii) the same message twice with the gap swept across the duplicate window edge; (iv) trailer then a lone foreign burst. Non-trivial = every scenario/op; distinct by request text."
 SIG_RULE = "sigc01: synthesized complete transmissions (f64 continuous-phase AFSK, fractional samples/symbol): header from the SAME grammar (1..31 locations, callsign 3..8), rate from the 8 standard rates and random integers in [8000, 96000], amplitude log-uniform in [300, 30000] (i16 scale, inside samedec's AGC range; see DESIGN.md on the amplitude domain), DC up to 20 % of amplitude, random carrier phase and sub-sample start, baud error in [-1 %, +1 %], pause 1 s +-5 %, noise up to 20 dB SNR, lead-in 0..2 s, voice gap 1..11.5 s, library-default and samedec configurations; for every case the tapped observation streams are replayed on the Lean link model (T1+T2 => T3 link states, byte-tick count, resync ticks) and transport model (T3 => events with timestamps). signear: 16 kinds of audio without a complete SAME transmission. Non-trivial = every case; distinct by request text."
@@ -253,5 +252,17 @@ PROPS = {
         "rule": "appfault: (recording with n messages) x (assignment of behaviours). Non-trivial = every run; evaluations counts runs.",
         "exhaustive": False,
         "assumptions": ["OS: EPIPE on write to a closed pipe with SIGPIPE ignored; wait() returns after exit"],
+    },
+    "C10": {
+        "thm": "SameVerif.Thm.C10",
+        "suites": ["sighostile"],
+        "spec_filter": r"^spec\.sig c10 ",
+        "technique": "Lean 4 theorems on the link model from EVERY invariant-satisfying state (32 ticks below both thresholds return it to unsynchronised/unlocked/idle and emit a frame in progress; after 64 such ticks all future behaviour equals a cold-started link's) + hostile-prefix audio library through the real receiver under catch_unwind, replayed on the models",
+        "level_text": "PARTIAL by nature (float finiteness and AGC/timing recovery are sampled). Proved in Lean for the discrete link layer: a structural invariant holds in every reachable state; from ANY state satisfying it - mid-burst, locked, framer reading, any correlator/power-history contents - 32 symbol ticks with power below both thresholds (bits and equalizer bytes arbitrary) leave the byte clock stopped, the lock released and the framer idle, and a frame in progress is emitted, not lost (the bound 32 is tight); a quiet unsynchronised link stays quiet; correlator and power history forget everything older than 32 ticks; consequently after 64 such ticks the link's answers to EVERY future input equal those of a cold-started link that heard the same last 32 ticks (bisimulation, equalizer-training field dead). The only partial operation on that path (`power_history.front().expect`) is shown to be safe. "
+                      "Sampled: 60 (quick) / 1500 (thorough) hostile prefixes composed of 1..5 segments from 12 generators (random and boundary samples to +-2^20, clipping squares, DC steps, truncated and malformed transmissions, endless preamble, garbage carrier, level jumps, impulses, ramps, noise), then >= 1 s of quiet and a C01 transmission: no panic (catch_unwind, overflow checks on), exact decode of the final transmission, no non-finite number in the Debug rendering; every run is replayed on the link and transport models.",
+        "level_note": "No theorem about f32: overflow/NaN-freedom for |x| <= 2^20 within the documented gain range is an informal bound (DESIGN.md §6 C10) exercised by the suite. Open known finding F6 (marginal decode at >= 88.2 kHz with baud error) applies to the final transmission here as well.",
+        "rule": "sighostile: prefix segments drawn with replacement from the 12 generators, random durations; rate from the standard set and random; both configurations. Non-trivial = every case.",
+        "exhaustive": False,
+        "assumptions": ["FE3: after the carrier stops the smoothed power falls below both thresholds (sampled)", "non-finite input samples are outside the domain"],
     },
 }
